@@ -1106,7 +1106,9 @@ func isSumFn(w *World, g *ssa.Function) bool {
 func rankBySortSlice(r *Run, rule string, fn *ssa.Function, site string) bool {
 	w := r.W
 	var sortCall *ssa.Call
-	for _, call := range callsIn(fn, func(cc *ssa.CallCommon) bool { return calleeName(cc) == "sort.Slice" || calleeName(cc) == "sort.SliceStable" }) {
+	for _, call := range callsIn(fn, func(cc *ssa.CallCommon) bool {
+		return calleeName(cc) == "sort.Slice" || calleeName(cc) == "sort.SliceStable"
+	}) {
 		sortCall = call.(*ssa.Call)
 	}
 	if sortCall == nil {
